@@ -52,6 +52,12 @@ func (s *SubscriptionService) CreateSubscription(sc *uasc.SecureChannel, r ua.Re
 		return nil, err
 	}
 
+	session := s.srv.Session(r.Header())
+	if session == nil {
+		// the background publisher needs the session's publish request queue
+		return nil, ua.StatusBadSessionIDInvalid
+	}
+
 	s.Mu.Lock()
 	defer s.Mu.Unlock()
 
@@ -63,7 +69,7 @@ func (s *SubscriptionService) CreateSubscription(sc *uasc.SecureChannel, r ua.Re
 
 	sub := NewSubscription()
 	sub.srv = s
-	sub.Session = s.srv.Session(r.Header())
+	sub.Session = session
 	sub.Channel = sc
 	sub.ID = newsubid
 	sub.RevisedPublishingInterval = req.RequestedPublishingInterval
@@ -225,7 +231,7 @@ func (s *SubscriptionService) DeleteSubscriptions(sc *uasc.SecureChannel, r ua.R
 			results[i] = ua.StatusBadSubscriptionIDInvalid
 			continue
 		}
-		if session.AuthTokenID.String() != sub.Session.AuthTokenID.String() {
+		if session == nil || sub.Session == nil || session.AuthTokenID.String() != sub.Session.AuthTokenID.String() {
 			results[i] = ua.StatusBadSessionIDInvalid
 			continue
 		}
